@@ -109,7 +109,8 @@ package nat
 // "a released block can be handed out again" without ever being held twice: the call that finds the
 // allocation takes it out of the table in the same critical section, so of two concurrent releases
 // of one subscriber only one goes on to decrement the pool counter
-//@   ensures lockedN(1, privKey in m.allocations) ==> unlockedN(1, privKey !in m.allocations)
+// (release 1 is the early return of the not-found path, release 2 ends the section of a found one)
+//@   ensures ip4 != nil && lockedN(1, privKey in m.allocations) ==> unlockedN(2, privKey !in m.allocations)
 //@   sets relNAT = relNAT + 1
 
 //@ func (m *Manager) GetAllocation
